@@ -158,8 +158,10 @@ Fits(c, smart, W, mn, left, col, st) ==
                [] nd.k = "grp" -> Fits(c, smart, W, mn, left, col, rest \o kids(FLAT, ind, 1))
 
 -----------------------------------------------------------------------------
-VARIABLES cs, src, st, col, pos, used
-vars == <<cs, src, st, col, pos, used>>
+VARIABLES cs, src, st, col, pos, used,
+          fbase,   \* stack height below the outermost FLAT region being laid out (-1: none)
+          taint    \* a HARDLINE was passed in flat mode inside that region (relaxed runs only)
+vars == <<cs, src, st, col, pos, used, fbase, taint>>
 
 HLF == "hardline-in-flat-group"
 ABF == "always-break-in-flat-group"
@@ -174,7 +176,7 @@ Strict == Cases[cs].strict
 Init == /\ cs \in 1..Len(Cases)
         /\ src \in {"obs"} \cup (IF Drift(cs) THEN {"impl"} ELSE {})
         /\ st = << <<0, BREAK, Cases[cs].root, 1>> >>
-        /\ col = 0 /\ pos = 1 /\ used = {}
+        /\ col = 0 /\ pos = 1 /\ used = {} /\ fbase = -1 /\ taint = FALSE
         /\ (Drift(cs) /\ src = "impl") => PrintT(<<"DRIFT", Cases[cs].id, ImplStreams[cs]>>)
 
 Top == st[Len(st)]
@@ -189,6 +191,11 @@ Emit(kind) == pos <= Len(O) /\ O[pos].k = kind /\ pos' = pos + 1
 \* the ribbon: hang(2, group(align(concat([group(...), ...])))).)  The mode of
 \* a flat_choice is that of the innermost enclosing group / fill item.
 ModeOK(m, mm) == TRUE
+
+\* The follow-on of the known finding is confined to the flat region in which the hardline was passed: once the
+\* stack is back at the height it had when the outermost flat group / fill item was entered, the taint is gone.
+InRegion == fbase # -1 /\ Len(st) > fbase
+Tainted == InRegion /\ taint
 
 Step ==
   /\ Len(st) > 0
@@ -232,14 +239,14 @@ Step ==
             \* (relaxed only) once a hardline was emitted inside a flat group the
             \* engine's modes are unreliable: an always_break hoisted through a concat
             \* also breaks the siblings that follow it inside the "flat" group
-            \E b \in (IF m = BREAK THEN {1} ELSE IF ~Strict /\ HLF \in used THEN {1, 2} ELSE {2}) :
+            \E b \in (IF m = BREAK THEN {1} ELSE IF ~Strict /\ Tainted THEN {1, 2} ELSE {2}) :
               /\ st' = Append(Rest, <<ind, m, nd.c[b], 1>>)
               /\ UNCHANGED <<col, pos, used>>
        [] nd.k = "ab" ->                                                 \* C04.forced
             /\ m = BREAK \/ ~Strict
             \* (relaxed only) in flat mode: a follow-on of the known finding once a hardline was passed in flat
             \* mode, otherwise a relaxation of its own (which is not a known finding)
-            /\ used' = IF m = BREAK \/ HLF \in used THEN used ELSE used \cup {ABF}
+            /\ used' = IF m = BREAK \/ Tainted THEN used ELSE used \cup {ABF}
             /\ st' = Rest \o kids(BREAK, ind) /\ UNCHANGED <<col, pos>>
        [] nd.k = "grp" ->
             IF ~HasChoice(cs, nd.c[1])
@@ -272,6 +279,18 @@ Step ==
                    /\ st' = Rest \o << <<ind, m, id, j + 1>>, <<ind, mm, nd.c[j], 1>> >>
                    /\ used' = IF mm = FLAT /\ Forced(cs, nd.c[j]) THEN used \cup {FlatOverForced(nd.c[j])} ELSE used
                    /\ UNCHANGED <<col, pos>>
+  \* (after st' is determined) the flat region and its taint
+  /\ LET efb == IF InRegion THEN fbase ELSE -1
+         hlFlat == Top[3] # 0 /\ Nd(cs, Top[3]).k = "hl" /\ Top[2] = FLAT
+         \* a group / fill item entered FLAT over content whose first forcing node is a hardline (the step that
+         \* records HLF): that hardline may then be reached through a choiceless inner group, i.e. in BREAK mode
+         newTop == st'[Len(st')]
+         enterHl == /\ Top[3] # 0 /\ Nd(cs, Top[3]).k \in {"grp", "fill"}
+                    /\ Len(st') > 0 /\ newTop[2] = FLAT /\ newTop[3] # 0
+                    /\ Forced(cs, newTop[3]) /\ FirstForced(cs, newTop[3]) = "hl"
+     IN /\ fbase' = IF efb # -1 THEN efb
+                    ELSE IF Len(st') > 0 /\ st'[Len(st')][2] = FLAT THEN Len(st') - 1 ELSE -1
+        /\ taint' = ((fbase' # -1) /\ (Tainted \/ hlFlat \/ enterHl))
 
 Accepting == Len(st) = 0 /\ pos = Len(O) + 1
 Next == Step /\ UNCHANGED <<cs, src>>
